@@ -13,7 +13,8 @@ LOOP_REGION = 1_000_000  # addresses of objects created by earlier iterations of
 
 
 class LoopSpec:
-    def __init__(self, invariant=None, frame=None, decreases=None, lists=True, note="", ghost=(), single_iteration=None, sets=False, allocates=False):
+    def __init__(self, invariant=None, frame=None, decreases=None, lists=True, note="", ghost=(), single_iteration=None, sets=False, allocates=False, aux=()):
+        self.aux = tuple(aux)  # names of library-state arrays in st.aux (deque histories, map mutations ...) the loop may change
         # allocates: the body creates objects.  Objects created by earlier iterations then live in an address region of
         # their own (>= LOOP_REGION), apart from everything that existed when the loop was entered (addresses <= 0 or
         # small positive locals); fields outside `frame` may be written on such new objects only: at loop head every
@@ -185,6 +186,9 @@ def _havoc(eng, spec, body_nodes, st: State, fr: int, extra_names=()):
         st.lists = z3.Const(V.fresh_name("lists"), st.lists.sort())
     if spec.sets:
         st.sets = z3.Const(V.fresh_name("sets"), st.sets.sort())
+    for nm in spec.aux:
+        if nm in st.aux and z3.is_expr(st.aux[nm]):
+            st.aux[nm] = z3.Const(V.fresh_name(nm), st.aux[nm].sort())
     for g in spec.ghost:
         cur = st.ghost.get(g)
         if cur is not None and z3.is_expr(cur):
@@ -194,7 +198,7 @@ def _havoc(eng, spec, body_nodes, st: State, fr: int, extra_names=()):
     return frame
 
 
-def _frame_obligations(eng, st_end: State, head: State, frame, line, lists_free, sets_free=False, allocates=False):
+def _frame_obligations(eng, st_end: State, head: State, frame, line, lists_free, sets_free=False, allocates=False, aux_free=()):
     for f, arr in st_end.heap.items():
         if f in frame:
             continue
@@ -208,6 +212,12 @@ def _frame_obligations(eng, st_end: State, head: State, frame, line, lists_free,
                            z3.Implies(k <= len(head.local_objs), z3.Select(arr, k) == z3.Select(base, k)), "loop-frame", line)
             else:
                 eng.oblige(st_end, f"loop@{line} frame: field {f} unchanged by an iteration", arr == base, "loop-frame", line)
+    for nm, arr in st_end.aux.items():
+        if nm in aux_free or not z3.is_expr(arr):
+            continue
+        base = head.aux.get(nm)
+        if base is not None and z3.is_expr(base) and not z3.eq(arr, base):
+            eng.oblige(st_end, f"loop@{line} frame: library state {nm} unchanged by an iteration", arr == base, "loop-frame", line)
     if not lists_free and not z3.eq(st_end.lists, head.lists):
         eng.oblige(st_end, f"loop@{line} frame: list contents unchanged", st_end.lists == head.lists, "loop-frame", line)
     if not sets_free and not z3.eq(st_end.sets, head.sets):
@@ -244,7 +254,7 @@ def exec_while(eng, node, st: State, fr: int):
                     if spec.single_iteration:
                         eng.oblige(st3, f"loop@{line}: {spec.single_iteration}", z3.BoolVal(False), "loop-termination", line)
                     _inv_obligations(eng, spec, ctx, st3, "preserved", line)
-                    _frame_obligations(eng, st3, head, frame, line, spec.lists, spec.sets, spec.allocates)
+                    _frame_obligations(eng, st3, head, frame, line, spec.lists, spec.sets, spec.allocates, spec.aux)
                     if dec0 is not None:
                         d1 = spec.decreases(ctx)
                         eng.oblige(st3, f"loop@{line} variant decreases and is bounded", z3.And(d1 < dec0, dec0 >= 0), "loop-variant", line)
@@ -411,7 +421,7 @@ def _for_invariant(eng, node, sym: SymIter, spec: LoopSpec, st: State, fr: int):
                 if ex is None or ex[0] == "continue":
                     ctx = LoopCtx(eng, st4, fr, entry=entry_ctx, index=i + 1, seq=sym.seq, it=sym)
                     _inv_obligations(eng, spec, ctx, st4, "preserved", line)
-                    _frame_obligations(eng, st4, head, frame, line, spec.lists, spec.sets, spec.allocates)
+                    _frame_obligations(eng, st4, head, frame, line, spec.lists, spec.sets, spec.allocates, spec.aux)
                 elif ex[0] == "break":
                     yield st4, None
                 else:
